@@ -29,6 +29,22 @@ CHECKS = {
    text="Signal monitor (a waiter start is preceded by a completed production that no earlier run of it consumed; never in the producer's step) is a TLC invariant on the model's runs and is evaluated by TLC on every recorded real call log; (producer, waiter) order projections and waiter invocation counts of the real runners equal the model's (liveness half), including the documented signal-synchronised loop.",
    note="Trusted: TLC, harness bodies, builder. A production = completed invocation of a node listing the awaited name as output.",
    technique="TLA+ engine model + L1 monitor as TLC invariant; TLC trace validation of recorded call logs; spec->code differential"),
+ "C02": dict(level="model_checking", engine="HGSched",
+   text="TLC enumerates, on the schedule-level specification HGSched.tla over the plan tree derived from the engine model, every completion order of every superstep under max_concurrency in {unlimited,1,2,3} (invariants: in-flight bound, permits, all tasks ran; no deadlock); each enumerated order is replayed on the real AsyncRunner by a controlled driver that releases parked node bodies one at a time, and the outcome (status, values, invocation multiset, error, partial values) is compared with the SyncRunner run and with the model; node-list permutations are compared when output names are unique.",
+   note="Trusted: TLC, the controlled asyncio driver (bodies park on harness futures), builder. Schedules beyond the cap per program are sampled. Interrupts excluded (C14).",
+   technique="TLA+ schedule-level spec model-checked by TLC; replay of TLC-enumerated schedules into the real async runner"),
+ "C10": dict(level="model_checking", engine="HGEngine",
+   text="Input combinations (zip/product, row-major) and list collection are defined in HGEngine.tla and evaluated by TLC for every mapping-node and runner.map case of an enumerated family (lengths 0..3, 1-2 mapped parameters, failing items, branching items, raise/continue, renames, clone); the real runners are compared item by item. MapPool.tla (worker pool, completion-order append, order restoration, first error in input order) is model-checked for every configuration and EVERY completion order TLC finds is replayed on AsyncRunner.map with the controlled driver.",
+   note="Trusted: TLC, controlled driver, builder. N<=3 items for the pool replay.",
+   technique="TLA+ engine model (Combos, map branch) + MapPool transition system model-checked by TLC; replay of TLC-enumerated completion orders"),
+ "C19": dict(level="model_checking", engine="Validate",
+   text="Validate.tla is a declarative structural-validity predicate and TypeCompat.tla the documented type-compatibility relation; TLC evaluates them on every valid base program x every single injected flaw at every position (incl. nested graphs) x node-list permutations and on all ordered pairs of a closed type universe; the real constructor / is_type_compatible must agree (GraphConfigError exactly when invalid, repaired program accepted, no raw library error).",
+   note="Trusted: TLC, the flaw injector. Docs-silent type combinations (Any as incoming type, bare generic incoming) follow the code and are marked S1/S2 in TypeCompat.tla.",
+   technique="TLA+ validity predicate and type relation evaluated by TLC over enumerated finite universes; differential against the constructor"),
+ "C20": dict(level="translation_validation", engine="Viz",
+   text="Every rendering (all valid expansion states x both output modes of render_graph, Mermaid depth 0..3 x both modes, to_flat_graph) of every generated graph is recorded and validated by TLC against Viz.tla (SelfConsistent, Once, Complete, Sound, FlatOK, exhaustive state keys) using the generator's own declared hierarchy and dependencies.",
+   note="Trusted: TLC, the generator's declared dependency computation, the Mermaid parser. Input-node/END edges only checked for self-consistency. Seven genuine renderer defects are listed in known_findings.json (open).",
+   technique="TLA+ declarative oracle evaluated by TLC on recorded renderer output (translation validation of each rendering)"),
 }
 
 def entry(pid, c):
@@ -45,7 +61,10 @@ man = {
  "hooks": {"guard": "HYPERGRAPH_VERIF", "enable": "no source hooks: observation uses harness-generated node bodies, the public EventProcessor/CacheBackend APIs and a controlled asyncio driver",
            "baseline_off_cmd": "cd /repo && /venv/bin/python -m pytest -ra -q -p no:cacheprovider --timeout=900 --continue-on-collection-errors",
            "source_commits": [], "add_only": True},
- "engines": [{"name": "HGEngine", "path": "spec/HGEngine.tla", "serves_properties": sorted(p for p, c in CHECKS.items() if c["engine"] == "HGEngine"),
+ "engines": [{"name": "HGSched", "path": "spec/HGSched.tla", "serves_properties": ["C02"], "kind_free_text": "TLA+ schedule-level spec (permits, completion orders, nested frames, map items) model-checked by TLC; schedules replayed on AsyncRunner"},
+             {"name": "Validate", "path": "spec/Validate.tla", "serves_properties": ["C19"], "kind_free_text": "TLA+ structural validity predicate + TypeCompat relation evaluated by TLC"},
+             {"name": "Viz", "path": "spec/Viz.tla", "serves_properties": ["C20"], "kind_free_text": "TLA+ faithful-drawing oracle evaluated by TLC on recorded renderings"},
+             {"name": "HGEngine", "path": "spec/HGEngine.tla", "serves_properties": sorted(p for p, c in CHECKS.items() if c["engine"] == "HGEngine"),
               "kind_free_text": "TLA+ specification of the superstep engine with property-level definitions (HGProps), checked by TLC; bound to the code by Predict (spec->code) and TraceL1 (code->spec)"}],
  "checks": [entry(p, CHECKS[p]) for p in sorted(CHECKS)],
  "notes": "see DESIGN.md; known_findings.json lists genuine defects (open ones are printed as KNOWN-FINDING lines, fixed ones suppress nothing)",
